@@ -176,7 +176,7 @@ def run_case(ctx, kind, stack, methods, prefixes, status_map, repeats):
             text = json.dumps(d, cls=specs.JSONEncoder)
             docs.append(json.loads(text))
         except Exception as e:
-            ctx.violation(f'document-not-encodable:{type(e).__name__}', fam, cls, exception=e, **wit)
+            ctx.violation(f'document-not-encodable:{type(e).__name__}:{"openrpc" if kind == "openrpc" else "openapi"}', fam, cls, exception=e, **wit)
             return
     doc = docs[0]
     # ---- purity: repeated generation identical, nothing the user handed in was touched
@@ -257,6 +257,11 @@ def run_case(ctx, kind, stack, methods, prefixes, status_map, repeats):
         if not typed_eq(entries(kind, reused), entries(kind, fresh)):
             ctx.violation('document-depends-on-what-the-specification-object-generated-before', fam, cls,
                           difference=_first_diff(entries(kind, reused), entries(kind, fresh)), second_registry=variant, **wit)
+            return
+        if not typed_eq(reused, fresh):
+            # the entries agree but the rest does not: components / tags / servers left over from the earlier registry
+            ctx.violation('document-depends-on-what-the-specification-object-generated-before:outside-the-method-entries', fam, cls,
+                          difference=_first_diff(reused, fresh), second_registry=variant, **wit)
             return
     PENDING.append((len(PENDING), kind, doc, ('case', dict(kind=kind, stack=stack, methods=methods, prefixes=prefixes,
                                                           status_map=status_map, repeats=repeats)), fam, cls, wit))
@@ -370,7 +375,7 @@ def random_method(rng, idx, allow_view=True):
     m = {'name': f'm{idx}' if rng.random() < 0.7 else f'ns.meth{idx}', 'params': params, 'ret': rng.choice(specworld.RETURNS),
          'ctx': 'ctx' if rng.random() < 0.25 else None}
     if rng.random() < 0.55:
-        m['doc'] = {'params': rng.random() < 0.7, 'returns': rng.random() < 0.6, 'raises': rng.sample(['A', 'B', 'C'], rng.choice([0, 0, 1, 2])),
+        m['doc'] = {'params': rng.choice([True, True, 'bare', False]), 'returns': rng.choice([True, 'rtype', False]), 'raises': rng.sample(['A', 'B', 'C'], rng.choice([0, 0, 1, 2])),
                     'deprecated': rng.random() < 0.2}
     if rng.random() < 0.6:
         a = {}
@@ -440,6 +445,8 @@ def gen(ctx):
         [base('m0', annotate={'errors': ['A', 'C'], 'prefix': 'Px'}), base('m1', annotate={'errors': ['A'], 'prefix': 'Users_'})],
         [base('m0', doc={'raises': ['A', 'B'], 'params': True, 'returns': True, 'deprecated': True}), base('m1', doc={'params': True})],
         [base('m0', view=True), base('m1', view=True, ctx='ctx')],
+        [base('m0', doc={'params': 'bare', 'returns': 'rtype'}), base('m1', doc={'params': True, 'returns': 'rtype'})],
+        [base('m0', doc={'params': 'bare'})],
         [base('m0', annotate={'tags': ['t1', 't2'], 'examples': 2, 'servers': True, 'security': True}), base('m1', annotate={'tags': ['t1', 't2']})],
     ]
     for methods in crafted:
